@@ -9,6 +9,8 @@ import (
 	"fmt"
 	"go/token"
 	"go/types"
+	"os"
+	"runtime/debug"
 	"sort"
 	"strings"
 
@@ -169,6 +171,16 @@ type PolyCtx struct {
 	memo   map[ssa.Value]Poly
 	stores []*ssa.Store
 	ids    map[ssa.Value]int
+	// guard mode (guards.go): parameter / free-variable roots are delimited (‹name›) so that
+	// symbols can be re-rooted at call sites, slice elements get canonical symbols
+	// elem(<slice>)[<index>], and every symbol remembers the SSA value it stands for.
+	G              bool
+	symVal         map[string]ssa.Value
+	elemStored     map[string]bool
+	loadMemo       map[*ssa.UnOp]Poly
+	copyMemo       map[*ssa.Alloc]*copyEntry
+	storePaths     map[string]bool
+	busyStorePaths bool
 	// LoadAt optionally pins the interpretation of loads: "entry" symbols for loads not reached by any store
 }
 
@@ -218,14 +230,14 @@ func (c *PolyCtx) accessPath(addr ssa.Value) (string, bool) {
 			if x.Op == token.MUL {
 				// pointer loaded from somewhere: treat the loaded pointer as a root symbol
 				if p, ok := c.accessPath(x.X); ok {
-					return "(*" + p + ")" + joinFields(fields), true
+					return "(·" + p + ")" + joinFields(fields), true
 				}
 			}
 			return "", false
 		case *ssa.Parameter:
-			return x.Name() + joinFields(fields), true
+			return c.rootName(x) + joinFields(fields), true
 		case *ssa.FreeVar:
-			return "fv:" + x.Name() + joinFields(fields), true
+			return c.rootName(x) + joinFields(fields), true
 		case *ssa.Global:
 			return "g:" + x.Name() + joinFields(fields), true
 		case *ssa.Alloc:
@@ -235,6 +247,11 @@ func (c *PolyCtx) accessPath(addr ssa.Value) (string, bool) {
 			}
 			return fmt.Sprintf("local%d:%s", c.id(x), x.Comment) + joinFields(fields), true
 		case *ssa.IndexAddr:
+			if c.G {
+				if e, ok := c.elemPath(x); ok {
+					return e + joinFields(fields), true
+				}
+			}
 			return "", false
 		case *ssa.Call, *ssa.Phi, *ssa.Extract, *ssa.MakeInterface, *ssa.TypeAssert:
 			// a pointer obtained from a call etc.: an opaque but stable root
@@ -256,6 +273,29 @@ func joinFields(f []string) string {
 // copiedFrom: the Alloc is initialised by exactly one store of a whole-struct load and
 // none of its fields is stored to afterwards.
 func (c *PolyCtx) copiedFrom(a *ssa.Alloc) (string, bool) {
+	if c.copyMemo == nil {
+		c.copyMemo = map[*ssa.Alloc]*copyEntry{}
+	}
+	if e, ok := c.copyMemo[a]; ok {
+		if e.busy {
+			return "", false
+		}
+		return e.path, e.ok
+	}
+	e := &copyEntry{busy: true}
+	c.copyMemo[a] = e
+	e.path, e.ok = c.copiedFrom1(a)
+	e.busy = false
+	return e.path, e.ok
+}
+
+type copyEntry struct {
+	path string
+	ok   bool
+	busy bool
+}
+
+func (c *PolyCtx) copiedFrom1(a *ssa.Alloc) (string, bool) {
 	var whole []*ssa.Store
 	for _, ref := range *a.Referrers() {
 		switch x := ref.(type) {
@@ -306,6 +346,9 @@ func (c *PolyCtx) storesTo(path string) []*ssa.Store {
 				continue // the initialising store of a local struct copy is not a write of the source
 			}
 		}
+		if addrHasIndex(s.Addr) && !strings.HasPrefix(path, "elem(") {
+			continue // element stores only affect element paths
+		}
 		p, ok := c.accessPath(s.Addr)
 		if !ok {
 			continue
@@ -320,6 +363,22 @@ func (c *PolyCtx) storesTo(path string) []*ssa.Store {
 // loadSymbol names a load by its path and the set of stores that can reach it; a single
 // dominating store of the exact path is forwarded (the load equals the stored value).
 func (c *PolyCtx) loadPoly(ld *ssa.UnOp) Poly {
+	if c.loadMemo == nil {
+		c.loadMemo = map[*ssa.UnOp]Poly{}
+	}
+	if p, ok := c.loadMemo[ld]; ok {
+		if os.Getenv("DLINT_DEBUG_REC") != "" && strings.HasPrefix(p.String(), "load#") {
+			debug.PrintStack()
+		}
+		return p
+	}
+	c.loadMemo[ld] = polySym(fmt.Sprintf("load#%d", c.id(ld)))
+	p := c.loadPoly1(ld)
+	c.loadMemo[ld] = p
+	return p
+}
+
+func (c *PolyCtx) loadPoly1(ld *ssa.UnOp) Poly {
 	path, ok := c.accessPath(ld.X)
 	if !ok {
 		return polySym(fmt.Sprintf("load#%d", c.id(ld)))
@@ -331,7 +390,7 @@ func (c *PolyCtx) loadPoly(ld *ssa.UnOp) Poly {
 		}
 	}
 	if len(reach) == 0 {
-		return polySym(path)
+		return c.note(polySym(path), ld)
 	}
 	if len(reach) == 1 {
 		s := reach[0]
@@ -353,7 +412,115 @@ func (c *PolyCtx) loadPoly(ld *ssa.UnOp) Poly {
 			sep = fmt.Sprintf("@%d", c.id(ld))
 		}
 	}
-	return polySym(path + "{" + strings.Join(ids, ",") + "}" + sep)
+	return c.note(polySym(path+"{"+strings.Join(ids, ",")+"}"+sep), ld)
+}
+
+// rootName renders a parameter / free variable as the root of a path.
+func (c *PolyCtx) rootName(v ssa.Value) string {
+	switch x := v.(type) {
+	case *ssa.Parameter:
+		if c.G {
+			return "‹" + x.Name() + "›"
+		}
+		return x.Name()
+	case *ssa.FreeVar:
+		if c.G {
+			return "‹^" + x.Name() + "›"
+		}
+		return "fv:" + x.Name()
+	}
+	return v.Name()
+}
+
+// note remembers which SSA value a single-symbol polynomial stands for (guard mode).
+func (c *PolyCtx) note(p Poly, v ssa.Value) Poly {
+	if c.G && len(p) == 1 {
+		for k := range p {
+			if k != "" {
+				if c.symVal == nil {
+					c.symVal = map[string]ssa.Value{}
+				}
+				if _, ok := c.symVal[k]; !ok {
+					c.symVal[k] = v
+				}
+			}
+		}
+	}
+	return p
+}
+
+// elemPath names an element address &X[i] canonically: elem(<X>)[<i>].  Only when the
+// container is a parameter or is loaded from a path that is never stored to in this
+// function, and no element of it is stored to in this function (else two loads of the
+// "same" element are not congruent).
+func (c *PolyCtx) elemPath(ia *ssa.IndexAddr) (string, bool) {
+	if c.busyStorePaths {
+		return "", false
+	}
+	c.ensureStorePaths()
+	base, ok := c.rawSlicePath(ia.X)
+	if !ok || c.elemStored[base] {
+		return "", false
+	}
+	idx := strings.ReplaceAll(c.Of(ia.Index).String(), "*", "·")
+	return "elem(" + base + ")[" + idx + "]", true
+}
+
+// rawSlicePath renders a container value without consulting reaching stores.
+func (c *PolyCtx) rawSlicePath(v ssa.Value) (string, bool) {
+	switch x := v.(type) {
+	case *ssa.Parameter, *ssa.FreeVar:
+		return c.rootName(v), true
+	case *ssa.UnOp:
+		if x.Op != token.MUL {
+			return "", false
+		}
+		p, ok := c.accessPath(x.X)
+		if !ok {
+			return "", false
+		}
+		for sp := range c.storePaths {
+			if sp == p || strings.HasPrefix(p, sp+".") || strings.HasPrefix(sp, p+".") {
+				return "", false
+			}
+		}
+		return p, true
+	}
+	return "", false
+}
+
+func (c *PolyCtx) ensureStorePaths() {
+	if c.storePaths != nil {
+		return
+	}
+	c.busyStorePaths = true
+	sp := map[string]bool{}
+	for _, s := range c.stores {
+		if addrHasIndex(s.Addr) {
+			continue
+		}
+		if p, ok := c.accessPath(s.Addr); ok {
+			sp[p] = true
+		}
+	}
+	c.storePaths = sp
+	c.elemStored = map[string]bool{}
+	c.busyStorePaths = false
+	for _, s := range c.stores {
+		a := s.Addr
+		for {
+			if fa, ok := a.(*ssa.FieldAddr); ok {
+				a = fa.X
+				continue
+			}
+			break
+		}
+		if ia2, ok := a.(*ssa.IndexAddr); ok {
+			if b, ok := c.rawSlicePath(ia2.X); ok {
+				c.elemStored[b] = true
+			}
+		}
+	}
 }
 
 func isIntLike(t types.Type) bool {
@@ -402,11 +569,11 @@ func (c *PolyCtx) opaque(kind string, v ssa.Value, args ...Poly) Poly {
 		as = append(as, a.String())
 	}
 	if len(args) == 0 {
-		return polySym(fmt.Sprintf("%s#%d", kind, c.id(v)))
+		return c.note(polySym(fmt.Sprintf("%s#%d", kind, c.id(v))), v)
 	}
 	s := kind + "(" + strings.Join(as, ",") + ")"
 	s = strings.ReplaceAll(s, "*", "·") // keep the monomial separator unambiguous
-	return polySym(s)
+	return c.note(polySym(s), v)
 }
 
 func (c *PolyCtx) of(v ssa.Value) Poly {
@@ -417,9 +584,9 @@ func (c *PolyCtx) of(v ssa.Value) Poly {
 		}
 		return c.opaque("const", v)
 	case *ssa.Parameter:
-		return polySym(x.Name())
+		return c.note(polySym(c.rootName(x)), v)
 	case *ssa.FreeVar:
-		return polySym("fv:" + x.Name())
+		return c.note(polySym(c.rootName(x)), v)
 	case *ssa.BinOp:
 		a, b := c.Of(x.X), c.Of(x.Y)
 		switch x.Op {
@@ -516,7 +683,11 @@ func (c *PolyCtx) sliceSym(v ssa.Value) Poly {
 			return c.loadPoly(x)
 		}
 	case *ssa.Parameter:
-		return polySym(x.Name())
+		return c.note(polySym(c.rootName(x)), v)
+	case *ssa.FreeVar:
+		if c.G {
+			return c.note(polySym(c.rootName(x)), v)
+		}
 	}
 	return c.opaque("slice", v)
 }
@@ -567,4 +738,18 @@ func (c *PolyCtx) SliceBounds(s *ssa.Slice) (base ssa.Value, lo, hi Poly) {
 		hi = c.lenOf(s.X)
 	}
 	return s.X, lo, hi
+}
+
+// addrHasIndex: the address designates (part of) a slice/array element.
+func addrHasIndex(v ssa.Value) bool {
+	for {
+		switch x := v.(type) {
+		case *ssa.FieldAddr:
+			v = x.X
+		case *ssa.IndexAddr:
+			return true
+		default:
+			return false
+		}
+	}
 }
